@@ -153,6 +153,15 @@ FUNCTIONS = [
         'select': [('range', ('assign', 'length'), ('if-names', ['signed']))],
         'free': {'n': 'int', 'signed': 'bool', 'bits': 'int'}, 'out': ['data']}),
     ('mpint1_nbytes', 'readbuf.py', 'ReadBuf.read_mpint1', {'unit': 'Logic5', 'extract': 'assign-expr', 'var': 'n', 'free': {'bits': 'int'}}),
+    ('kex_write', 'ssh2_kex.py', 'SSH2_Kex.write', {'unit': 'Logic6', 'extract': 'proc', 'select': [('body',)],
+        'externals': {'wbuf.write': {'lean': 'write', 'args': [0], 'arg_types': ['bytes'], 'ret': []},
+                      'wbuf.write_list': {'lean': 'write_list', 'args': [0], 'arg_types': ['List[str]'], 'ret': []},
+                      'wbuf.write_bool': {'lean': 'write_bool', 'args': [0], 'arg_types': ['bool'], 'ret': []},
+                      'wbuf.write_int': {'lean': 'write_int', 'args': [0], 'arg_types': ['int'], 'ret': []}},
+        'free': {'self.cookie': 'bytes', 'self.kex_algorithms': 'List[str]', 'self.key_algorithms': 'List[str]',
+                 'self.client.encryption': 'List[str]', 'self.server.encryption': 'List[str]', 'self.client.mac': 'List[str]', 'self.server.mac': 'List[str]',
+                 'self.client.compression': 'List[str]', 'self.server.compression': 'List[str]', 'self.client.languages': 'List[str]',
+                 'self.server.languages': 'List[str]', 'self.follows': 'bool', 'self.__unused': 'int'}, 'out': []}),
     ('is_print_ascii_char', 'utils.py', 'Utils.is_print_ascii', {'unit': 'Logic2', 'extract': 'lambda', 'params': ['int']}),
     # candidates that are outside the subset (kept in the table so that the reason is reported on every run)
     ('ctoi', 'utils.py', 'Utils.ctoi', {}),
@@ -201,6 +210,8 @@ def lean_type(t):
         return 'Option (%s)' % lean_type(t[1])
     if t == OBJ:
         return 'Bool'
+    if t == ('unit',):
+        return 'Unit'
     if t == INT:
         return 'Int'
     if t == STR:
@@ -739,6 +750,8 @@ class Tr:
             base = key.rsplit('.', 1)[0]
             if (base + '!') not in env:
                 bad(node, 'attribute %s read where %s may be None' % (key, base))
+            return env[key]
+        if key is not None and key.startswith('self.') and key in env:
             return env[key]
         if not isinstance(node.value, ast.Name):
             bad(node, 'attribute of an expression')
@@ -1675,6 +1688,9 @@ def select_statements(func, selectors):
                 elifs.add(id(st.orelse[0]))
     picked = []
     for sel in selectors:
+        if sel[0] == 'body':
+            picked.extend(func.body)      # ('body',): every statement of the function
+            continue
         if sel[0] == 'range':
             a = select_statements(func, [sel[1]])[0]
             b = select_statements(func, [sel[2]])[0]
@@ -1916,6 +1932,11 @@ def translate_entry(name, fname, qual, opts, known):
             # left by `break`: (none, state); run to the end: (some (the out locals), state)
             if stop:
                 return ('ret', '((none : Option (%s)), %s)' % (k_proc.otype or '_', e['$st'][0]), ('proc',))
+            if not outs:
+                # a procedure that only acts through its external calls
+                k_proc.otype = 'Unit'
+                k_proc.rtype = ('tuple', ('opt', ('unit',)), STATE)
+                return ('ret', '(some (), %s)' % e['$st'][0], ('proc',))
             vals = []
             for o in outs:
                 if o not in e:
